@@ -68,7 +68,10 @@ JudgeOp(r, line) ==
   /\ rs' = [rs EXCEPT !.hs = IF ~preOK THEN post.saves
                              ELSE IF ev.op = "decsc" THEN Append(rs.hs, Savepoint(st))
                              ELSE IF ev.op = "decrc" THEN (IF rs.hs = <<>> THEN <<>> ELSE SubSeq(rs.hs, 1, Len(rs.hs) - 1))
-                             ELSE rs.hs]
+                             ELSE rs.hs,
+  \* C18 history variable: the tab stops as the SPECIFICATION knows them (edited by HTS / TBC / RIS only) -
+  \* an operation that tampers with them in between (a resize that prunes stops) is visible at the next HT
+                      !.tabs = IF ~preOK THEN post.tabs ELSE Apply([st EXCEPT !.tabs = rs.tabs], ev).tabs]
   /\ cnt' = Inc(cnt, judged \cup {"lines", "ops"}
                      \cup (IF On("C09") THEN {"C09"} ELSE {}) \cup (IF On("C01") THEN {"C01"} ELSE {})
                      \cup (IF On("C17") /\ preOK /\ postOK THEN {"C17"} ELSE {})
@@ -90,7 +93,8 @@ JudgeOp(r, line) ==
         => Report("illformed", "C09", line, r, {"display-rows"}, [rows |-> Len(disp), L |-> post.L])
   \* the step predicates of the selected properties
   /\ \A id \in judged :
-        LET pre0 == IF id = "C14" /\ ev.op = "decrc" THEN [st EXCEPT !.saves = rs.hs] ELSE st
+        LET pre0 == IF id = "C14" /\ ev.op = "decrc" THEN [st EXCEPT !.saves = rs.hs]
+                    ELSE IF id = "C18" THEN [st EXCEPT !.tabs = rs.tabs] ELSE st
             bad == Bad(id, pre0, ev, post, disp) IN
         bad # {} => Report("mismatch", id, line, r, bad, Describe(Apply(pre0, ev), post))
   \* C17
@@ -100,7 +104,7 @@ JudgeOp(r, line) ==
 
 -----------------------------------------------------------------------------
 (* feed lines: what the listener received during one feed() call             *)
-RsInit(utf8) == [rec |-> Ground, pend |-> <<>>, utf8 |-> utf8, start |-> TRUE, flushAlt |-> FALSE, skip |-> FALSE, desync |-> FALSE, hs |-> <<>>]
+RsInit(utf8) == [rec |-> Ground, pend |-> <<>>, utf8 |-> utf8, start |-> TRUE, flushAlt |-> FALSE, skip |-> FALSE, desync |-> FALSE, hs |-> <<>>, tabs |-> {}]
 PlainEv(e) == [op |-> e.op, p |-> e.p, s |-> e.s, pr |-> e.pr]
 TextOf(evs) == FoldLeft(LAMBDA acc, e : IF e.op = "draw" THEN acc \o e.s ELSE acc, <<>>, evs)
 Only(evs, ops) == SelectSeq(evs, LAMBDA e : e.op \in ops)
@@ -187,7 +191,8 @@ Step ==
      CASE r.k = "new" ->
             /\ st' = IF r.scr THEN NormState(r.post, NoScreen) ELSE NoScreen
             /\ need' = {}
-            /\ rs' = [RsInit(r.utf8) EXCEPT !.hs = IF r.scr THEN r.post.saves ELSE <<>>]
+            /\ rs' = [RsInit(r.utf8) EXCEPT !.hs = IF r.scr THEN r.post.saves ELSE <<>>,
+                                            !.tabs = IF r.scr THEN SeqToSet(r.post.tabs) ELSE {}]
             /\ UNCHANGED grp
             /\ cnt' = Inc(cnt, {"lines"})
             /\ (On("C09") /\ r.scr /\ ~WellFormed(NormState(r.post, NoScreen), r.post.cols))
@@ -216,7 +221,7 @@ Step ==
                 same == r.panics = 0 /\ Shape(post) /\ DiffFields(want, post, NoDirty) = {} IN
             /\ st' = post
             /\ need' = {}
-            /\ rs' = [rs EXCEPT !.skip = ~same, !.hs = want.saves]
+            /\ rs' = [rs EXCEPT !.skip = ~same, !.hs = want.saves, !.tabs = want.tabs]
             /\ UNCHANGED grp
             /\ cnt' = Inc(cnt, {"lines", "vectors"} \cup (IF same THEN {} ELSE {"setup_mismatch"}))
        [] r.k = "utf8" ->
